@@ -122,6 +122,48 @@ theorem verify_true {v : View} (hver : verify v = some true) : ∃ h no ns, WF v
                 intro j hj
                 exact verifySections_ok ns _ _ hver j (Nat.zero_le _) (by omega)
 
+theorem guard_some {x : Option Nat} {k : Nat} {rest : Option Bool}
+    (h : (x.bind fun b => if b = k then rest else some false) = some true) : x = some k ∧ rest = some true := by
+  cases x with
+  | none => simp at h
+  | some b =>
+    simp only [Option.bind_some] at h
+    split at h
+    · rename_i e; exact ⟨by rw [e], h⟩
+    · cases h
+
+theorem verify_ident_facts (v : View) (h : verify v = some true) :
+    52 ≤ v.size ∧ v.u8 0 = some 0x7f ∧ v.u8 1 = some 0x45 ∧ v.u8 2 = some 0x4c ∧ v.u8 3 = some 0x46 ∧
+    v.u8 4 = some 1 ∧ v.u8 5 = some 1 := by
+  unfold verify at h
+  cases hi : verifyIdent v with
+  | none => simp [hi] at h
+  | some ok =>
+    cases ok with
+    | false => simp [hi] at h
+    | true =>
+      clear h
+      unfold verifyIdent at hi
+      split at hi
+      · simp at hi
+      · rename_i hs
+        simp only [Option.bind_eq_bind, Option.pure_def, ne_eq, ite_not] at hi
+        obtain ⟨h0, hi⟩ := guard_some hi
+        obtain ⟨h1, hi⟩ := guard_some hi
+        obtain ⟨h2, hi⟩ := guard_some hi
+        obtain ⟨h3, hi⟩ := guard_some hi
+        cases h4 : v.u8 4 <;> simp only [h4, Option.bind_none, Option.bind_some] at hi
+        · cases hi
+        cases h5 : v.u8 5 <;> simp only [h5, Option.bind_none, Option.bind_some] at hi
+        · cases hi
+        split at hi
+        · cases hi
+        · rename_i e
+          refine ⟨by omega, h0, h1, h2, h3, ?_, ?_⟩
+          · congr; omega
+          · congr; omega
+
+
 /-- the tables collected by a section loop lie inside the file; `.strtab` ends with a NUL -/
 structure SecsOK (v : View) (s : Secs) : Prop where
   symtab : ∀ t, s.symtab = some t → t.off + t.size ≤ v.size
